@@ -73,6 +73,26 @@ DETECT.update({
     "C20f": ("C20", "get-changed-system:/invocations/:state", ""),
 })
 
+DETECT.update({
+    # round 4 (ids ...g / ...h)
+    "C02g": ("C06", "body-executing-while-status:REROUTED:concurrent-pollers", "the scenario it needs (tasks with running concurrency, two pollers) lives in C06, whose new 'a body only executes while RUNNING' assertion reports it; C02's own scenarios have no running concurrency"),
+    "C02h": ("C02", "in-lock-chain-broken:sqlite", ""),
+    "C04g": ("C04", "left-in-recovery-status:lost-race:*", ""),
+    "C04h": ("C04", "scan-selects-live:child-of-looping-parent:*", "needed strengthening: the real BaseRunner.run() loop of a parent with stand-in workers, one iteration per virtual second, scanned after every iteration"),
+    "C06g": ("C06", "blocked-invocation-handed-out:retry", "needed strengthening: oracle on what a poll hands out (no invocation whose key is held, at most one per key)"),
+    "C06h": ("C06", "blocked-without-same-key-holder:*", "needed strengthening: a second task with the same argument names and values among the submissions"),
+    "C09g": ("C09", "mem-ready-set-inconsistent", ""),
+    "C09h": ("C09", "blocking-report:missing:sqlite", ""),
+    "C10g": ("C10", "history:missing-entry:*:mem", ""),
+    "C10h": ("C10", "history:filed-under-other-invocation:*", ""),
+    "C16g": ("C16", "diverge:return:paginate:value", ""),
+    "C16h": ("C16", "diverge:return:t_get_triggers:value", "needed strengthening: a trigger-definition component (register / re-register / clean per task on shared conditions)"),
+    "C18g": ("C18", "replay-differs:{random,time,uuid}", ""),
+    "C18h": ("C18", "different-calls-share-one-sub-invocation / subtask-of-another-task-returned", "needed strengthening: a second sub-task called with the same arguments"),
+    "C19g": ("C19", "execution-count-vs-statement:retry-boundary-race", ""),
+    "C19h": ("C19", "execution-count-vs-statement:sync / execution-counts-differ:sync-vs-*", "needed strengthening: callers that read a result twice, children returning None"),
+})
+
 for d in sorted(os.listdir(os.path.join(ROOT, "seeded"))):
     p = os.path.join(ROOT, "seeded", d)
     if not os.path.isdir(p) or not os.path.exists(os.path.join(p, "patch.diff")):
